@@ -33,6 +33,27 @@ def toarr(M, shape=None, expand=False):
     return out
 
 
+def _light(e):
+    """cheap normalisation (keeps expressions from nesting deeply); full cancel only for small expressions"""
+    return sp.cancel(e) if sp.count_ops(e) < 400 else sp.together(e)
+
+
+def _singular(A):
+    """is det(A) identically zero?  decided cheaply: non-zero at the regime's witness point => not identically zero"""
+    d = A.det(method="berkowitz") if A.rows > 3 else A.det()
+    if d == 0:
+        return True
+    ctx = alg._CTX
+    if ctx is not None:
+        try:
+            v = sp.N(d.xreplace(ctx.witness), 30)
+            if v.is_number and abs(v) > 1e-20:
+                return False
+        except Exception:
+            pass
+    return sp.simplify(d) == 0
+
+
 class SingularMatrix(_np.linalg.LinAlgError):
     pass
 
@@ -47,10 +68,10 @@ def solve(a, b, **kw):
         import scipy.linalg as _la
         return _la.solve(a, b, **kw)
     A, B = tomat(a), tomat(b)
-    if sp.simplify(A.det()) == 0:
+    if _singular(A):
         raise SingularMatrix("Matrix is singular.")
     X = A.LUsolve(B)
-    X = X.applyfunc(sp.cancel) if A.rows <= 3 else X
+    X = X.applyfunc(_light)
     return toarr(X, _np.asarray(b).shape)
 
 
@@ -58,7 +79,7 @@ def inv(a):
     if _isnum(a):
         return _np.linalg.inv(a)
     A = tomat(a)
-    if sp.simplify(A.det()) == 0:
+    if _singular(A):
         raise SingularMatrix("Singular matrix")
     return toarr(A.inv().applyfunc(sp.cancel))
 
@@ -79,7 +100,7 @@ def lu_factor(a, **kw):
         import scipy.linalg as _la
         return _la.lu_factor(a, **kw)
     f = LU(a)
-    if sp.simplify(f.A.det()) == 0:
+    if _singular(f.A):
         from scipy.linalg import LinAlgWarning
         warnings.warn("Diagonal number 1 is exactly zero. Singular matrix.", LinAlgWarning, stacklevel=2)
     return f
@@ -93,7 +114,7 @@ def lu_solve(lup, b, trans=0, **kw):
         raise TypeError("numeric LU factor applied to a symbolic right-hand side")
     A = lup.A.T if trans else lup.A
     X = A.LUsolve(tomat(b))
-    return toarr(X.applyfunc(sp.cancel), _np.asarray(b).shape)
+    return toarr(X.applyfunc(_light), _np.asarray(b).shape)
 
 
 # ---------------------------------------------------------------------------------------------------------
